@@ -42,6 +42,17 @@ def _stale_read(pair):
         shutil.rmtree(root, ignore_errors=True)
 
 
+def _swap(x):
+    """two mounts of one task feeding one consumer: exchanging which mount carries which computation is another
+    computation of the consumer (input WIRINGS that differ)"""
+    key_check.module()
+    root = scratch(f'swap-{os.getpid()}')
+    try:
+        return key_check.realise_xns(None, x, root / 'd', root / 'w')
+    finally:
+        shutil.rmtree(root, ignore_errors=True)
+
+
 def run(ctx):
     quick = ctx.quick()
     # ---- design level: pairs of values in TLC
@@ -94,8 +105,14 @@ def run(ctx):
                             + (f'; a chain configured with the second returns the result computed for the first'
                                if conf['stale'] else ''), detail={'values': [m[1] for m in ms], 'confirm': conf})
     ctx.extra['collision_groups'] = collisions
+    for x in (2, 'a', [1], {'a': 1}, None, 1.5):
+        k = run_forked(_swap, x)
+        ctx.traces += 1
+        if k['cmp12'] == k['cmp21']:
+            ctx.report('wiring-swap', f'a task reading p1::a and p2::a has one location ({k["cmp12"]}) whether p1 or p2 carries '
+                                      f'x={x!r} (the other x=1): two different input wirings share a result')
     # downstream: a different upstream key must move every downstream key (chain hash), on the real code
-    for t in ('b', 'c', 'd'):
+    for t in ('b', 'c', 'd', 'e', 'm', 'n'):
         down = defaultdict(set)
         for key, members in by_key.items():
             for m in members:
